@@ -28,22 +28,26 @@ EXTENDS Integers, Sequences, FiniteSets, TLC
 
 CONSTANT Dev
 
-Masters == {"root", "user"}
+Masters == {"root", "user", "rootsplit"}   \* rootsplit: uid 0 started with effective gid 1 but real gid 0 (setegid by a supervisor)
 Targets == {"unset", "same", "other", "zero"}
 
 UG(u) == IF u = 1 THEN {7} ELSE {}
 MasterCreds(m) == IF m = "root"
                   THEN [ruid |-> 0, euid |-> 0, suid |-> 0, rgid |-> 0, egid |-> 0, sgid |-> 0, groups |-> {}]
+                  ELSE IF m = "rootsplit"
+                  THEN [ruid |-> 0, euid |-> 0, suid |-> 0, rgid |-> 0, egid |-> 1, sgid |-> 0, groups |-> {}]
                   ELSE [ruid |-> 2, euid |-> 2, suid |-> 2, rgid |-> 2, egid |-> 2, sgid |-> 2, groups |-> {2}]
-Id(m, t) == IF t \in {"unset", "same"} THEN (IF m = "root" THEN 0 ELSE 2) ELSE IF t = "other" THEN 1 ELSE 0
+(* "unset" / "same": the master's EFFECTIVE id (what validate_user / validate_group take as the default) *)
+IdU(m, t) == IF t \in {"unset", "same"} THEN MasterCreds(m).euid ELSE IF t = "other" THEN 1 ELSE 0
+IdG(m, t) == IF t \in {"unset", "same"} THEN MasterCreds(m).egid ELSE IF t = "other" THEN 1 ELSE 0
 
 (* cap: what the kernel lets a uid-0 process do: "all", or one privilege call refused with EPERM although the caller is
    uid 0 (CAP_SETUID / CAP_SETGID missing from the bounding set, a user namespace with setgroups denied) *)
 Caps == {"all", "nosetuid", "nosetgid", "noinitgroups"}
 Cases == [master : Masters, user : Targets, group : Targets, init : BOOLEAN, known : BOOLEAN, cap : Caps]
 (* cfg.uid / cfg.gid as validate_user / validate_group deliver them: unset = the master's effective id *)
-CfgU(c) == Id(c.master, c.user)
-CfgG(c) == Id(c.master, c.group)
+CfgU(c) == IdU(c.master, c.user)
+CfgG(c) == IdG(c.master, c.group)
 (* is there a passwd entry for the configured uid?  only the other account can lack one *)
 Known(c) == IF c.user = "other" THEN c.known ELSE TRUE
 
